@@ -30,7 +30,10 @@ abbrev Group := List (Str × Member)
 
 def prefixes (g : Group) : List Str := g.map (·.1)
 
-/-- `HedSchemaGroup.__init__`: prefixes pairwise distinct (SCHEMA_DUPLICATE_PREFIX otherwise), not empty -/
+/-- `HedSchemaGroup.__init__`: prefixes pairwise distinct (SCHEMA_DUPLICATE_PREFIX otherwise), not empty.
+The comparison is exact: "sc:" and "SC:" are two members (finding C13-prefix-case-collision; with
+fixes/C13_prefix_case_collision.diff the comparison is on case-folded prefixes, which is the hypothesis
+`foldS fc a ≠ foldS fc b` of `C13.separated_of_prefixes`). -/
 def wellFormed (g : Group) : Bool := !g.isEmpty && decide (prefixes g).Nodup
 
 /-- `schema_for_namespace` -/
